@@ -218,6 +218,16 @@ Definition scan_once_c (clean : bool) (cfg : scan_cfg) (now : Z) (world : list d
   : list dfile * scache :=
   scan_once cfg now world (if clean then sc_clean world c else c).
 
+(* histories of scans some of which begin with the clean-up *)
+Definition scan_ev := (bool * scan_cfg * Z * list dfile)%type.
+Definition ev_world (e : scan_ev) : list dfile := snd e.
+
+Fixpoint scan_cache_c (evs : list scan_ev) (c : scache) : scache :=
+  match evs with
+  | [] => c
+  | (cl, cfg, now, world) :: r => scan_cache_c r (snd (scan_once_c cl cfg now world c))
+  end.
+
 (* a history: each scan sees the configuration (the disable marker can come and go),
    the clock and the directory tree of its moment *)
 Fixpoint scan_run (evs : list (scan_cfg * Z * list dfile)) (c : scache) : list (list dfile) :=
